@@ -374,7 +374,7 @@ fn seeded_strings(ctx: &mut Ctx, i: usize) {
 // numbers
 // ------------------------------------------------------------------------------------------------
 
-fn number_spellings(syntax: &str) -> Vec<String> {
+pub fn number_spellings(syntax: &str) -> Vec<String> {
     let mut v: Vec<String> = Vec::new();
     let ints = ["0", "1", "9", "10", "007", "123456789", "9007199254740993", "18446744073709551616"];
     let fracs = ["", ".", ".0", ".5", ".25"];
